@@ -168,6 +168,52 @@ def h_pack_race(at1: int, at2: int, k: int, what: str) -> None:
     reached()
 
 
+def h_reader_primary(at: int, what: str) -> None:
+    """Other role assignment: a reader is in the middle of load() (holding a pooled file handle) when a
+    whole pack (or a whole commit) runs; afterwards every load must still be right."""
+    assume(at >= 0)
+    with untraced():
+        from ZODB.utils import load_current
+        env, sch, g, s, pre, stop = _setup(True)
+        try:
+            want = GR.state_at(pre, b'\xff' * 8)
+            live = sorted(GR.reachable(want))
+            for o in live[:2]:
+                load_current(s, o)                         # pooled handles exist
+            if what == 'pack':
+                sch.add(at, lambda: _pack(s, stop), tid=1, name='pack')
+            else:
+                def commit():
+                    data, serial = load_current(s, A_OID)
+                    t = T.meta(b'racer')
+                    s.tpc_begin(t)
+                    s.store(A_OID, serial, data, '', t)
+                    s.tpc_vote(t)
+                    s.tpc_finish(t)
+                sch.add(at, commit, tid=1, name='commit')
+            sch.start()
+            try:
+                got = load_current(s, live[-1])             # the primary's load: yield points inside FilePool.get and the reads
+            except locks.Blocked:
+                note('blocked')
+                sch.stop()
+                assume(False)
+            sch.stop()
+            assume(not sch.pending)
+            note('at', sch.trace[0][1])
+            check(got[0] == want[live[-1]], 'load running across a pack returned a wrong state', live[-1])
+            for o in live:
+                try:
+                    d = load_current(s, o)[0]
+                except Exception as ex:
+                    fail('load after a pack that overlapped a reader raised', type(ex).__name__, str(ex)[:120], sch.trace)
+                check(d == want[o] or o == A_OID, 'load after a pack that overlapped a reader returned a wrong state', o, sch.trace)
+        finally:
+            locks.uninstall()
+            env.fs.hook = None
+    reached()
+
+
 def h_pack_crash(p: int, j: int, band: int) -> None:
     """Crash at the p-th file-system operation of a pack (tear j of a write), then reopen."""
     with untraced():
@@ -273,6 +319,13 @@ HARNESSES = [
                   'tpc_finish/undo during pack', 'MVCCAdapterInstance.load'],
             quick=dict(timeout=170, shards=shards(what=['commit', 'undo', 'read', 'pack2'], k=[1])),
             thorough=dict(timeout=1200, shards=shards(what=['commit', 'undo', 'read', 'pack2'], k=[1, 2]))),
+    Harness('reader_primary', h_reader_primary,
+            decides='a whole pack (or commit) placed at any lock/file operation inside a reader\'s load() either has to wait or leaves '
+                    'the reader and all later loads correct (file swap versus checked-out read handles)',
+            symbolic='at = injection point over the yield points of load()', bounds='history G1; one injected operation', oracle='pre-pack state',
+            code=['FilePool.get/write_lock/empty', 'FileStorage.load', 'FileStorage.pack (swap)'],
+            quick=dict(timeout=100, shards=shards(what=['pack', 'commit'])),
+            thorough=dict(timeout=300, shards=shards(what=['pack', 'commit']))),
     Harness('pack_crash', h_pack_crash,
             decides='a crash at any file-system operation of a pack (any byte of a torn write): the database reopens - with the index '
                     'and leftover .pack/.old files of that image - to a state equivalent to the packed or unpacked database, loses no '
